@@ -64,7 +64,7 @@ theorem sp_of_nameSpec {f : M (Option Prior)} {n : WName} {P : State → Prop}
   refine ⟨hs.nopanic, fun p s' hfs => ?_⟩
   have := hs.ok p (by rw [hfs])
   rw [hfs] at this
-  exact ⟨s, hp, this.1, this.2.1, this.2.2.1, this.2.2.2.1, this.2.2.2.2, hfs⟩
+  exact ⟨s, hp, this.1, this.2.1, this.2.2.1, this.2.2.2.1, this.2.2.2.2.1, hfs⟩
 
 /-! ### the names inside RDATA -/
 
@@ -402,7 +402,7 @@ theorem sp_nameComp {track : Prop} {s0 : State} {names loc : List WName} {o : Op
     | panic => exact absurd rfl hs.nopanic
     | err e => exact ⟨by simp, fun a s' hh => by cases hh⟩
     | ok p =>
-      obtain ⟨hw2, hden, hq, ho, hr⟩ := hs.ok p rfl
+      obtain ⟨hw2, hden, hq, ho, hr, _, _⟩ := hs.ok p rfl
       simp only []
       refine ⟨?_, fun a s' hh => ?_⟩
       · unfold hvPush; simp only [M.modify_apply]; simp
@@ -414,7 +414,7 @@ theorem sp_nameComp {track : Prop} {s0 : State} {names loc : List WName} {o : Op
           have w := winv_ext (s' := { s2 with gCtx := NameCtx.none }) hw2 (by constructor <;> simp) rfl rfl rfl rfl
           rw [← hs4]
           exact ⟨w.c12, w.cur_av, w.av_size, w.g12, w.labs, w.qn, w.ow, den_anchorOK (fun q hq' => by
-            have := hden q hq'; exact this)⟩
+            have := hden q hq'; exact this), w.clabs⟩
         have hh' : (hvPush (p.map (·.ptr)) s4) = (.ok a, s') := hh
         have hs' : s' = (hvPush (p.map (·.ptr)) s4).2 := by rw [hh']
         obtain ⟨f1, f2, f3, f4, f5, f6⟩ := hvPush_fields s4 (p.map (·.ptr))
@@ -528,7 +528,8 @@ theorem anchorOK_of_stored {s s' : State} (hst : ∀ p ls, StoredAt s p ls → S
 
 theorem recSt_patch {track : Prop} {s0 s s' : State} {names loc : List WName} {o : Option Prior}
     {on : Option WName} (h : RecSt track s0 s names loc o on)
-    (hst : ∀ p ls, StoredAt s p ls → StoredAt s' p ls) (e0 : Ext s0 s')
+    (hst : ∀ p ls, StoredAt s p ls → StoredAt s' p ls) (hcst : ∀ g, CStored s g → CStored s' g)
+    (e0 : Ext s0 s')
     (hcur : s'.cursor = s.cursor) (hav : s'.available = s.available) (hsz : s'.octets.size = s.octets.size)
     (hgl : s'.gLabels = s.gLabels) (hq : s'.qname = s.qname) (ho : s'.mostRecentOwner = s.mostRecentOwner)
     (hr : s'.mostRecentNameInRdata = s.mostRecentNameInRdata) (hhv : s'.hv = s.hv)
@@ -537,7 +538,8 @@ theorem recSt_patch {track : Prop} {s0 s s' : State} {names loc : List WName} {o
   have w := h.winv
   refine ⟨⟨by rw [hcur]; exact w.c12, by rw [hcur, hav]; exact w.cur_av, by rw [hav, hsz]; exact w.av_size,
     by rw [hgl]; exact w.g12, ?_, by rw [hq]; exact anchorOK_of_stored hst w.qn,
-    by rw [ho]; exact anchorOK_of_stored hst w.ow, by rw [hr]; exact anchorOK_of_stored hst w.rd⟩,
+    by rw [ho]; exact anchorOK_of_stored hst w.ow, by rw [hr]; exact anchorOK_of_stored hst w.rd,
+    fun g hg => hcst g (w.clabs g (by rw [← hgl]; exact hg))⟩,
     e0, ?_, ?_, by rw [ho]; exact h.own, fun n hn q hq' => den_of_stored hst (h.ownDen n hn q hq'),
     by rw [hq]; exact h.qn, ?_⟩
   · intro g hg
@@ -590,6 +592,38 @@ theorem storedAt_patch {s s2 : State} (hw : WInv s) (d : List UInt8) (hd : d.len
     · exact writeAt_get_ge _ _ _ _ (by omega)
 
 
+/-- … nor any chunk-disciplined stored name -/
+theorem cstored_patch {s s2 : State} (hw : WInv s) (d : List UInt8) (hd : d.length = 2)
+    (e : Ext { s with cursor := s.cursor + 2 } s2) (g : Nat)
+    (h : CStored s2 g) :
+    CStored { s2 with octets := writeAt s2.octets s.cursor d } g := by
+  obtain ⟨ls, h, hb⟩ := h
+  refine ⟨ls, ?_, hb⟩
+  have hcur := e.cur
+  simp only at hcur
+  have hlt : ∀ g, g ∈ s.gLabels → g < s.cursor := fun g hg => by
+    obtain ⟨ls', hl⟩ := hw.labs g hg
+    exact (nameAt_start hl).2.1
+  refine nameAtC_frame_gap (a := s.cursor) h ?_ ?_ ?_ (by show s.cursor ≤ s2.cursor; omega)
+  · intro g hg hga
+    have : g ∈ s.gLabels := by
+      rcases e.gnew g hg with h1 | h1
+      · exact h1
+      · simp only at h1; omega
+    obtain ⟨ls', hl⟩ := hw.labs g this
+    refine ⟨ls', ?_⟩
+    exact nameAt_frame (lo := 0) hl (fun x hx => e.glab x hx) (fun _ _ => Nat.zero_le _)
+      (fun i _ hi => e.pre i (by simp only; omega)) (Nat.le_refl _)
+  · intro g hg
+    rcases e.gnew g hg with h1 | h1
+    · left; exact hlt g h1
+    · right; simpa using h1
+  · intro i hi hor
+    show (writeAt s2.octets s.cursor d)[i]? = s2.octets[i]?
+    rcases hor with h1 | h1
+    · exact writeAt_get_lt _ _ _ _ h1
+    · exact writeAt_get_ge _ _ _ _ (by omega)
+
 /-- a hint stays valid along an extension that keeps the anchors and the cursor -/
 theorem hintOK_ext {s s' : State} {hint : Hint} {n : WName} (h : HintOK s hint n) (e : Ext s s')
     (hq : s'.qname = s.qname) (ho : s'.mostRecentOwner = s.mostRecentOwner)
@@ -627,7 +661,7 @@ theorem sp_ownerBlock {track : Prop} {s0 : State} {names loc : List WName} {o : 
     | panic => exact absurd rfl hs.nopanic
     | err e => exact ⟨by simp, fun a s' hh' => by cases hh'⟩
     | ok p =>
-      obtain ⟨hw2, hden, hq, ho, hr⟩ := hs.ok p rfl
+      obtain ⟨hw2, hden, hq, ho, hr, _, _⟩ := hs.ok p rfl
       simp only []
       refine ⟨by simp, fun a s' hh' => ?_⟩
       cases hh'
@@ -635,7 +669,7 @@ theorem sp_ownerBlock {track : Prop} {s0 : State} {names loc : List WName} {o : 
         constructor <;> simp
       have e14 := Ext.trans hf e24
       have w := winv_ext (s' := { s2 with gCtx := NameCtx.none }) hw2 (by constructor <;> simp) rfl rfl rfl rfl
-      refine ⟨p, ⟨w.c12, w.cur_av, w.av_size, w.g12, w.labs, w.qn, den_anchorOK hden, w.rd⟩,
+      refine ⟨p, ⟨w.c12, w.cur_av, w.av_size, w.g12, w.labs, w.qn, den_anchorOK hden, w.rd, w.clabs⟩,
         Ext.trans h1.ext e14, fun t => hvTrack_ext (h1.hv t) e14 hkv, (fun n hn => by cases hn), rfl, ?_,
         by show s2.qname = s0.qname; rw [hq]; exact h1.qn,
         ptrLog_ext (hs.log p rfl h1.log) e24 rfl⟩
@@ -671,7 +705,7 @@ theorem sp_rdataBlock {track : Prop} {s0 : State} {names : List WName} {o : Opti
     omega
   have w1 : WInv { s with cursor := s.cursor + 2 } := by
     have w := winv_ext h.winv e1 rfl rfl rfl rfl
-    exact ⟨w.c12, by show s.cursor + 2 ≤ s.available; omega, w.av_size, w.g12, w.labs, w.qn, w.ow, w.rd⟩
+    exact ⟨w.c12, by show s.cursor + 2 ≤ s.available; omega, w.av_size, w.g12, w.labs, w.qn, w.ow, w.rd, w.clabs⟩
   have h1 : RecSt track s0 { s with cursor := s.cursor + 2 } names [] o on := recSt_step h e1 w1 rfl rfl rfl
   -- the components
   have hcomp : Sp (fun s => RecSt track s0 s names [] o on) (writeRdata cls ty rd)
@@ -703,7 +737,8 @@ theorem sp_rdataBlock {track : Prop} {s0 : State} {names : List WName} {o : Opti
       rw [if_pos (by rw [hlen, hsz2]; omega)]
       refine ⟨by simp, fun a s' hh => ?_⟩
       cases hh
-      refine recSt_patch h2 (fun p ls hst => storedAt_patch h.winv _ hlen hfr p ls hst) ?_ rfl rfl
+      refine recSt_patch h2 (fun p ls hst => storedAt_patch h.winv _ hlen hfr p ls hst)
+        (fun g hc => cstored_patch h.winv _ hlen hfr g hc) ?_ rfl rfl
         (by simp) rfl rfl rfl rfl rfl rfl
       have := ext_write_above h2.ext s.cursor (u16be ((s2.cursor - s.cursor - 2) % 65536)) h.ext.cur
       unfold write at this
